@@ -154,7 +154,9 @@ class Tensor:
         else:
             result = self
         for axis, value in non_scalar_indices:
-            result = op.Gather(result, value, axis=axis)
+            # Axes squeezed above no longer exist in result: shift the Gather axis accordingly.
+            shifted_axis = axis - sum(1 for a in to_squeeze if a < axis)
+            result = op.Gather(result, value, axis=shifted_axis)
 
         return result
 
